@@ -601,6 +601,13 @@ func (w *World) opPoolAPI() {
 	default:
 		body, _ := json.Marshal(map[string]interface{}{"name": name, "size": w.C.Range(0, 4), "preAllocateIP": w.C.Prob(1, 2)})
 		w.spawnGalaxy("pool-set", "api", func() { httpTask(inst, "pool-set", "POST", "/v1/pool", body) })
+		if w.C.Prob(1, 3) {
+			// a second client applies another size for the same pool at the same moment (two administrators, or a
+			// retry racing the original request): create-or-update must leave the pool within a size that was stored
+			body2, _ := json.Marshal(map[string]interface{}{"name": name, "size": w.C.Range(0, 4), "preAllocateIP": w.C.Prob(1, 2)})
+			w.spawnGalaxy("pool-set", "api", func() { httpTask(inst, "pool-set", "POST", "/v1/pool", body2) })
+			w.S.Stat("pool.concurrent-set")
+		}
 	}
 }
 
